@@ -21,6 +21,18 @@ CLAIMED = {
           "Seeded search over interleavings of 1-3 emitting threads (all six Recorder methods through the weak wrapper) with RecoveryHandle::into_inner or drop; oracle: zero calls in flight at the instant into_inner returns, nothing enters after finalisation, every emission completed before recovery reached the recorder, later ones are inert, drop count exactly 1. One deviation is recorded as a known finding (handle drop while a call is in flight).",
           "Sequentially consistent interleavings only; std Arc/Weak are replaced under the guard by transparent shims that announce upgrade/try_unwrap/drop; install-fails path not covered here.",
           "DESIGN.md 4/C20"),
+  "C03": ("deterministic simulation (dsim): seeded schedules over racing first get_hash()/clone() on lazily hashed shared keys, with seeded key generation for the relational laws",
+          "Seeded search over interleavings of 2-4 threads calling get_hash, clone+get_hash, std Hash and ==/cmp on 3-5 shared keys built through every public constructor (incl. lazily hashed static keys), each atomic load/store of the memoised hash a scheduling point; at quiescence all pairs/triples are checked for the equivalence/total-order/hash-coherence laws, construction-path and permutation irrelevance. One genuine defect (Eq vs Ord for two same-named labels) was found and repaired.",
+          "Sequentially consistent interleavings only; the algebraic half is seeded input generation riding inside the simulation, not a result of schedule search.",
+          "DESIGN.md 4/C03"),
+  "C06": ("deterministic simulation (dsim) + WGL linearizability check against a sequential map model",
+          "Seeded search over interleavings of 2-4 threads issuing get_or_create/get/delete/retain/clear/visit/get_*_handles on 1-4 keys (equal keys built differently, permuted labels, same-shard keys) and up to three kinds, shard-lock acquisition/release windows being scheduling points; the recorded invoke/return history is checked for linearizability against a sequential (kind,key)->storage-id map with a counting Storage double; quiescent listings through both listing APIs close every history.",
+          "clear/retain/visit/listings are per-shard by documentation and are modelled as independent per-key sub-operations; histories are capped at 60 sub-operations and 3M checker nodes (over-budget histories are counted, not judged).",
+          "DESIGN.md 4/C06"),
+  "C16": ("deterministic simulation (dsim): seeded schedules over pushers racing a drainer at atomic-step granularity, simulator-seeded reservoir RNG; seeded retention-frequency trials",
+          "Sequential push/drain cycles are checked exactly (count, membership, sample rate, emptiness) for capacities 0..1024; concurrent pushes || drains are checked for capacity, fabrication, duplication, staleness and loss with the known concurrent-design deviation recorded as a known finding by structural signature; a second scenario runs 20 000+ seeded trials per (capacity, stream length) cell and bounds every position's retention frequency by 6 sigma. The off-by-one in the replacement index (and the capacity-0 panic) were found and repaired.",
+          "Sequentially consistent interleavings only; the uniformity half is a statistical test on a seeded generator (deterministic for a given seed).",
+          "DESIGN.md 4/C16"),
 }
 
 NOT_APPLICABLE = {
